@@ -771,6 +771,43 @@ theorem inv_appendBondObjs (l : List (Nat × AtomSpec × AtomSpec)) : ∀ {m : M
       · exact hnd.1 (hmem ▸ List.mem_map.mpr ⟨q, hq, rfl⟩)
     · exact hnd.2
 
+theorem inv_chargeWrite {m : Mol} (h : MInv m) (ps : List Nat) : MInv (step m (.chargeWrite ps)).1 := by
+  simp only [step]
+  split
+  · rename_i hl
+    refine { rowTags := h.rowTags, chargeTags := ?_, numeric := ?_, nodup := h.nodup, bondEnds := h.bondEnds,
+             bondNodup := h.bondNodup, atomParent := h.atomParent, bondParent := h.bondParent,
+             atomFresh := h.atomFresh, bondFresh := h.bondFresh }
+    · show (List.zipWith (fun a p => (a.id, some p)) m.atoms ps).map (·.1) = m.atoms.map (·.id)
+      have : ∀ (as : List Atom) (ps : List Nat), ps.length = as.length →
+          (List.zipWith (fun a p => (a.id, some p)) as ps).map (·.1) = as.map (·.id) := by
+        intro as
+        induction as with
+        | nil => intro ps _; simp
+        | cons a as ih =>
+          intro ps hl
+          cases ps with
+          | nil => simp at hl
+          | cons p ps => simp [ih ps (by simpa using hl)]
+      exact this m.atoms ps hl
+    · intro c hc
+      have : ∀ (as : List Atom) (ps : List Nat) (c : AtomId × Option Nat),
+          c ∈ List.zipWith (fun a p => (a.id, some p)) as ps → c.2.isSome = true := by
+        intro as
+        induction as with
+        | nil => intro ps c h; simp at h
+        | cons a as ih =>
+          intro ps c h
+          cases ps with
+          | nil => simp at h
+          | cons p ps =>
+            simp only [List.zipWith_cons_cons, List.mem_cons] at h
+            rcases h with h | h
+            · subst h; rfl
+            · exact ih ps c h
+      exact this m.atoms ps c hc
+  · exact h
+
 /-- every operation preserves the invariant -/
 theorem inv_step {m : Mol} (h : MInv m) (op : Op) : MInv (step m op).1 := by
   cases op with
@@ -789,6 +826,7 @@ theorem inv_step {m : Mol} (h : MInv m) (op : Op) : MInv (step m op).1 := by
   | addHydrogens hs => exact inv_addHydrogens hs h
   | mkView refs => exact h
   | viewLocal => exact h
+  | chargeWrite ps => exact inv_chargeWrite h ps
   | viewRead as => exact h
   | viewWrite as ps => exact inv_viewWrite h as ps
   | appendBondObj b x y =>
@@ -923,8 +961,10 @@ theorem keeps_viewWrite {m : Mol} (h : MInv m) (as : List AtomId) (ps : List Nat
 /-- Every edit keeps, for every atom that is still in the molecule afterwards, the coordinate row and
 the partial charge the atom had. -/
 theorem keeps_step {m : Mol} (h : MInv m) (op : Op) (a : AtomId) (ha0 : a ∈ m.ids)
-    (ha : a ∈ (step m op).1.ids) (hw : ∀ as ps, op = .viewWrite as ps → a ∉ as) : Keeps m (step m op).1 a := by
+    (ha : a ∈ (step m op).1.ids) (hw : ∀ as ps, op = .viewWrite as ps → a ∉ as)
+    (hq : ∀ ps, op ≠ .chargeWrite ps) : Keeps m (step m op).1 a := by
   cases op with
+  | chargeWrite ps => exact absurd rfl (hq ps)
   | mkView refs => exact Keeps.refl _ _
   | viewLocal => exact Keeps.refl _ _
   | viewRead as => exact Keeps.refl _ _
